@@ -14,8 +14,8 @@ package database
 //verif:override encoding/json.Marshal -> verifC21Marshal
 //verif:override encoding/json.Unmarshal -> verifC21Unmarshal
 //verif:override (*github.com/bytom/bytom/protocol/bc.Hash).String -> verifC21HashString
-//verif:obligation fn=VerifC21Checkpoints args=3,1 validate=10
-//verif:obligation fn=VerifC21Checkpoints args=3,0;3,2
+//verif:obligation fn=VerifC21Checkpoints args=3,1 validate=10 secs=1800
+//verif:obligation fn=VerifC21Checkpoints args=3,0;3,2 secs=1800
 //verif:obligation fn=VerifC21Checkpoints args=4,1;4,2 tier=thorough secs=3000
 
 import (
